@@ -355,5 +355,63 @@ func longCases(r *rand.Rand, thorough bool) []longCase {
 		}
 		out = append(out, longCase{input{Stack: st, Query: q, StartHex: hexOf(start), Ks: longKs(rem, sp.topPage(), r.Intn(10))}, "long-random"})
 	}
+	return append(out, manyPagesCases(r, thorough)...)
+}
+
+// Listings by the NUMBER OF PAGE REQUESTS: a client that pages one or two names at a time
+// through tens of thousands of names makes as many requests for ONE listing as any counter,
+// budget or table on the way can be sized for.  The cases cross the powers of two up to
+// 2^16 + 1 requests (2^14, 2^15, 2^16: each from some way below to above), with and without Link
+// headers, for tags and repositories, with a start point, under the in-process wrappers, and as
+// the inner client of a second hop whose own page holds the whole listing (the outer server
+// drains the inner client for one page).  The leaves are scripted (ocimem sorts all its names
+// for every page).  The consumers decline just after a power of two, or never; the sequence
+// value is iterated by each in turn (listPhase, heavy).
+func manyPagesCases(r *rand.Rand, thorough bool) []longCase {
+	var out []longCase
+	type mp struct {
+		q      string
+		count  int // names
+		page   int
+		link   bool
+		over   []string // layers above the paging hop
+		startV int
+		ks     []int
+	}
+	add := func(m mp) {
+		layers := append(append([]string{}, m.over...), hopLayer(m.page, 0, m.link))
+		sp := longSpec{q: m.q, leaf: "script", count: m.count, layers: layers}
+		st, q, f := sp.build()
+		start, _ := longStart(f, m.startV)
+		out = append(out, longCase{input{Stack: st, Query: q, StartHex: hexOf(start), Ks: m.ks}, "long-many-pages"})
+	}
+	whole := hopLayer(70000, 0, true) // one page of the outer hop holds everything
+	// every tier: above 2^16 requests in one listing; above 2^15 with two names a page and a
+	// start point, declined just after 2^16 names; above 2^15 by the inner client of a hop
+	add(mp{q: "tags", count: 66000, page: 1, link: true, ks: []int{0}})
+	add(mp{q: "repos", count: 66000, page: 2, link: false, startV: 1, ks: []int{65537, 0}})
+	add(mp{q: "tags", count: 33000, page: 1, link: false, over: []string{whole}, startV: 2, ks: []int{0}})
+	if !thorough {
+		return out
+	}
+	for i, c := range []int{16000, 16385, 32767, 32768, 32769, 33000, 65535, 65536, 65537, 66000} {
+		for j, q := range []string{"tags", "repos"} {
+			add(mp{q: q, count: c, page: 1, link: (i+j)%2 == 0, startV: (i + 3*j) % 8, ks: []int{c/2 + 1, 0}})
+			add(mp{q: q, count: 2 * c, page: 2, link: (i+j)%2 == 1, startV: (i + 5*j) % 8, ks: []int{0}})
+		}
+	}
+	for i, over := range [][]string{{"debug"}, {"sub:p"}, {"sub:a/b"}, {"select"}, {"unify"}, {whole}, {whole, "debug"}, {"debug", whole}} {
+		q := []string{"tags", "repos"}[i%2]
+		if over[0] == "select" {
+			q = "tags"
+		}
+		add(mp{q: q, count: []int{33000, 66000}[i%2], page: 1, link: i%3 != 0, over: over, startV: i, ks: []int{[]int{32769, 65537}[i%2], 0}})
+	}
+	for i := 0; i < 6; i++ {
+		c := []int{32769, 33000, 65537, 66000}[r.Intn(4)]
+		p := 1 + r.Intn(2)
+		add(mp{q: []string{"tags", "repos"}[r.Intn(2)], count: c * p, page: p, link: r.Intn(2) == 0, startV: r.Intn(8),
+			ks: []int{[]int{1, 16385, 32768, 32769, c}[r.Intn(5)], 0}})
+	}
 	return out
 }
